@@ -400,19 +400,25 @@ PROPS = {
     "C18": {
         "level": "proof",
         "extract": ["IdlGrammar", "SigGrammar"],
-        "extra_modules": ["QiVerif.Lemmas.Idl"],
+        "extra_modules": ["QiVerif.Lemmas.Idl", "QiVerif.Lemmas.IdlLines", "QiVerif.Props.C18Lines"],
         "rule": "type texts (600, thorough 6000: nested Vec / Map / Tuple over the 15 basic keywords, declared, undeclared and "
                 "template-named references, near-keywords such as strx / int7 / anything, empty and broken texts, white "
                 "space inside) wrapped into a package with three struct declarations and parsed by idl.ParseIDL: the "
                 "parameter signature (or error / unresolved) is compared with the type parser of the model; every type "
-                "printed by SignatureIDL for the signatures C09's generator draws is parsed back likewise; 150 "
+                "printed by SignatureIDL for the signatures C09's generator draws is parsed back likewise; 300 (3000) "
+                "groups of 1-4 action lines (as GenerateIDL writes them and as a person might: other white space, either "
+                "separator, no uid, other comments, repeated uids, uid 0, registerEvent, names such as fn / end / fnord, a "
+                "trailing separator, broken lines) parsed inside an interface by idl.ParseIDL are compared with the "
+                "model's action parser and id assignment; 150 "
                 "(thorough 1500) generated meta-objects (1-2 interfaces; methods with named parameters, signals, "
                 "properties; nested containers, tuples, structs shared between actions, template struct names) go "
                 "through GenerateIDL and ParseIDL and must come back with the same action ids, names and signatures; "
                 "4 (thorough 40) x 400 mutated / random IDL texts in child processes must yield a package or an error",
         "assumptions": [
             "the line and package layers (fn / sig / prop lines, //uid: comments, struct blocks, scopes) are compared by the "
-            "harness's own round-trip oracle, not by a Lean model: the theorems (parse_print, signature_survives) cover the type layer",
+            "struct blocks, the package header and the resolution of references in scopes are compared by the harness's own "
+            "round-trip oracle, not by a Lean model: the theorems cover the type layer (parse_print, signature_survives) and the "
+            "action lines and interface blocks (action_ok, interface_roundtrip)",
             "template struct names (Name<T>) are outside the class of the theorems and exercised by the correspondence only",
             "totality of the real parser is sampled (fuzzing in child processes); the model's parser is total by construction",
         ],
